@@ -65,6 +65,16 @@ func verifDir() string {
 	return "/verif"
 }
 
+// outDir is where evidence and counterexample files go: /verif unless VERIF_OUT redirects them
+// (used when a scratch copy of the repository is checked, so that committed evidence is only
+// ever written by runs against /repo itself).
+func outDir() string {
+	if d := os.Getenv("VERIF_OUT"); d != "" {
+		return d
+	}
+	return verifDir()
+}
+
 func paramStr(p map[string]int) string {
 	var ks []string
 	for k := range p {
@@ -300,7 +310,7 @@ func cmdCheck(args []string) {
 	if *tier == "thorough" && len(spec.Thorough) > 0 {
 		jobs = spec.Thorough
 	}
-	evPath := filepath.Join(verifDir(), "evidence", *prop+".json")
+	evPath := filepath.Join(outDir(), "evidence", *prop+".json")
 	os.MkdirAll(filepath.Dir(evPath), 0o755)
 	os.Remove(evPath)
 	p, err := loadProgram(*repo, *hd)
@@ -344,7 +354,7 @@ func cmdCheck(args []string) {
 	nviol, nreplayed := 0, 0
 	knownHit := map[string]bool{}
 	confirmed := map[string]string{}
-	cexDir := filepath.Join(verifDir(), "out", "cex", *prop)
+	cexDir := filepath.Join(outDir(), "out", "cex", *prop)
 	os.MkdirAll(cexDir, 0o755)
 	for i, r := range results {
 		j := jobs[i]
